@@ -106,6 +106,14 @@ class Programs:
             return ['set_label', d, j, new]
         if f == 'set_dims':
             u = rng.random()
+            if nd >= 1 and rng.random() < 0.4:
+                # the mapping form a.dims = {old: new}: the names that result must be distinct as well
+                if u < 0.3 or nd == 1: pairs = [[d, fresh]]
+                elif u < 0.55: pairs = [[dims[i], dims[(i + 1) % nd]]]                               # onto a sibling's name: refused
+                elif u < 0.75: pairs = [[dims[i], fresh], [dims[(i + 1) % nd], fresh]]               # two dimensions onto one name: refused
+                else: pairs = [[dims[i], dims[(i + 1) % nd]], [dims[(i + 1) % nd], dims[i]]]         # a swap
+                m = dict((o_, n_) for o_, n_ in pairs)
+                return ['set_dims', [m.get(x, x) for x in dims], pairs]
             if u < 0.4: return ['set_dims', ['m%d%d' % (rng.randrange(100), k_) for k_ in range(nd)]]
             if u < 0.7: nm = list(dims); rng.shuffle(nm); return ['set_dims', nm]              # a permutation of the current names
             if u < 0.85: return ['set_dims', list(dims[1:]) + [fresh]]                          # a shift
